@@ -321,3 +321,37 @@ def nested_pair_faults(case, ref, rng, limit=None, ks=(1, 5, 64)):
                 yield Case(case.t, d, case.cc, case.enc, origin=case.origin,
                            fault=dict(kind="size-nested-pair", outer=R.pstr(eo.path), inner=R.pstr(ei.path), change=f"+{ko}/+{ki}"),
                            sig=("size-pair", case.t, case.cc, R.pstr(eo.path), R.pstr(ei.path), ko, ki))
+
+
+def carried_state_streams(rng, n):
+    """Streams built to expose state carried from one pair to the next: a pair whose sessions request parameter
+    encryption next to session-less pairs of commands that *could* be encrypted, failed responses in between, the same
+    code with and without encryption back to back."""
+    g = gen.Gen(rng)
+    allcc = gen.ccs(g.P)
+    enc_r = [cc for cc in allcc if g.can_encrypt(g.P["areas"][str(cc)]["response_params"])]
+    enc_c = [cc for cc in allcc if g.can_encrypt(g.P["areas"][str(cc)]["command_params"])]
+    for i in range(n):
+        a, b = rng.choice(enc_r), rng.choice(enc_r)
+        c = rng.choice(enc_c)
+        E = dict(sessions=rng.choice((1, 2)), encrypt=True, decrypt=rng.random() < 0.5)
+        plain = dict(sessions=0)
+        sess = dict(sessions=1)
+        fail = dict(sessions=rng.choice((0, 1)), fail=rng.choice(gen.FAIL_CODES))
+        shapes = (
+            [(a, E), (b, plain)],
+            [(b, plain), (a, E), (b, plain)],
+            [(a, E), (rng.choice(allcc), fail), (b, plain)],
+            [(a, E), (a, plain), (a, sess), (a, E)],
+            [(c, dict(sessions=1, decrypt=True)), (c, plain), (b, sess)],
+        )
+        shape = shapes[i % len(shapes)]
+        msgs, data, sig = [], b"", []
+        for cc, cfg in shape:
+            g.force = {}
+            (cb, cev, cinfo), (rb, rev, rinfo) = g.pair(cc, dict(cfg))
+            msgs.append(Case("Command", cb, origin="gen-stream", intended=cev))
+            msgs.append(Case("Response", rb, cc=cc, enc=rinfo["enc"], origin="gen-stream", intended=rev))
+            data += cb + rb
+            sig.append((cc, cinfo["sessions"], cinfo["dec"], cinfo["enc"], rinfo.get("rc")))
+        yield Case("CommandResponseStream", data, origin="gen-stream-carried", sig=("SC", tuple(sig))), msgs
